@@ -282,7 +282,7 @@ def main():
             if s["ok"]:
                 structural_ok += 1
             else:
-                violations.append({"job": f, "scenario": j["scenario"], "kind": "structural", "what": s["name"], "detail": s["detail"], "replay": j.get("replay")})
+                violations.append({"job": f, "scenario": j["scenario"], "curve": j.get("curve"), "kind": "structural", "what": s["name"], "detail": s["detail"], "replay": j.get("replay")})
         for msg in j.get("inconclusive", []):
             inconclusive.append("%s: %s" % (j["scenario"], msg))
         r_groups = {g.get("only_if_failed"): ("R-%s-%d" % (f, gi)) for gi, g in enumerate(j["groups"]) if g["form"] == "R" and g.get("only_if_failed")}
@@ -343,11 +343,11 @@ def main():
                     notes.append("%s/%s: the reference characterisation no longer matches (%s) but the rejection query is unsat: no accepted violation exists over the reals; counted as discharged in the weaker form (R)" % (j["scenario"], g["name"], res.get("failing_items")))
                     discharged += n
                 elif rres["verdict"] == "sat":
-                    violations.append({"job": f, "scenario": j["scenario"], "kind": "solver-R", "what": g["name"], "detail": "characterisation sat on %s; rejection query sat: candidate accepted violation" % res.get("failing_items"), "model": rres.get("model", {}), "replay": j.get("replay"), "claim": g["claim"]})
+                    violations.append({"job": f, "scenario": j["scenario"], "curve": j.get("curve"), "kind": "solver-R", "what": g["name"], "detail": "characterisation sat on %s; rejection query sat: candidate accepted violation" % res.get("failing_items"), "model": rres.get("model", {}), "replay": j.get("replay"), "claim": g["claim"]})
                 else:
                     inconclusive.append("%s/%s: characterisation failed and the rejection query is %s" % (j["scenario"], g["name"], rres["verdict"]))
             elif res["verdict"] == "sat":
-                violations.append({"job": f, "scenario": j["scenario"], "kind": "solver", "what": g["name"], "detail": "sat: %s" % res.get("failing_items"), "model": res.get("model", {}), "replay": j.get("replay"), "claim": g["claim"]})
+                violations.append({"job": f, "scenario": j["scenario"], "curve": j.get("curve"), "kind": "solver", "what": g["name"], "detail": "sat: %s" % res.get("failing_items"), "model": res.get("model", {}), "replay": j.get("replay"), "claim": g["claim"]})
             else:
                 inconclusive.append("%s/%s: solver verdict %s" % (j["scenario"], g["name"], res["verdict"]))
             jr["groups"].append({k: res.get(k) for k in ("group", "form", "verdict", "n_items", "n_vars", "n_inverses", "n_terms", "z3_s", "twin", "z3new", "query_sha")})
@@ -364,11 +364,11 @@ def main():
     for k, v in enumerate(violations):
         rp = v.get("replay")
         path = os.path.join(VERIF, "replays", prop, "%s_%d.json" % (re.sub(r"[^A-Za-z0-9_.-]", "_", v["scenario"]), k))
-        json.dump({"property": prop, "scenario": v["scenario"], "what": v["what"], "detail": v["detail"], "claim": v.get("claim"), "model": v.get("model", {}), "replay": rp, "cmd": "%s replay %s" % (SYMARK, path)}, open(path, "w"), indent=1)
+        json.dump({"property": prop, "scenario": v["scenario"], "curve": v.get("curve"), "what": v["what"], "detail": v["detail"], "claim": v.get("claim"), "model": v.get("model", {}), "replay": rp, "cmd": "%s replay %s" % (SYMARK, path)}, open(path, "w"), indent=1)
         if not rp or rp == {}:
             inconclusive.append("%s: %s failed but the scenario has no native replay: %s" % (v["scenario"], v["what"], v["detail"]))
             continue
-        ckey = json.dumps([rp, v.get("model", {})], sort_keys=True)
+        ckey = json.dumps([rp, v.get("model", {}), v.get("curve")], sort_keys=True)
         if ckey not in replay_cache:
             replay_cache[ckey] = sh([SYMARK, "replay", path])
         r = replay_cache[ckey]
